@@ -18,6 +18,8 @@ def strip_int(t):
 
 
 def in_arith_grammar(t, syms):
+    if t in syms:
+        return True
     t = strip_int(t)
     if t[0] == 'c':
         return isinstance(t[1], int) and not isinstance(t[1], bool)
@@ -30,6 +32,24 @@ def in_arith_grammar(t, syms):
 
 def eval_arith(t, env):
     return feval(t, lambda x: env[x] if x in env else UNKNOWN)
+
+
+def successor_verdict(term, u, j, K, kmax=4):
+    """is `term` the shift-append successor (u*4 + j) mod 4^K ?  True / False (with a counter-example) / None (not arithmetic)"""
+    su, sj = strip_int(u), strip_int(j)
+    if K is None or not in_arith_grammar(term, (su, sj, K)):
+        return None, None
+    if not any(x == su for x in walk_term(term)) or not any(x == sj for x in walk_term(term)):
+        return None, None
+    for k in range(1, kmax + 1):
+        for uv in range(4 ** k):
+            for jv in range(4):
+                v = eval_arith(term, {su: uv, sj: jv, K: k})
+                if v is UNKNOWN:
+                    return None, None
+                if v != (uv * 4 + jv) % 4 ** k:
+                    return False, (uv, jv, k, v)
+    return True, None
 
 
 def appended_terms(ctx, f):
@@ -94,6 +114,8 @@ def r_shift(ctx, which=('obtain_latters', 'obtain_formers'), with_latter=False):
         f = ctx.p.func('dsw.spiderweb.remove_nasty_arc')
         Kt = find_k_term(f)
         found = 0
+        from .graph2 import acc_stores as _acc_stores
+        cleared = [(tg, v) for nd_, d_, tg, v in _acc_stores(ctx, f) if v == ('c', -1) and tg[0] == 'sub' and tg[1][0] == 'sub']
         for d in f.defs:
             if d.kind != 'assign':
                 continue
@@ -102,6 +124,20 @@ def r_shift(ctx, which=('obtain_latters', 'obtain_formers'), with_latter=False):
                 continue
             t0 = strip_int(t)
             if not (t0[0] == 'bin' and t0[1] == '%' and Kt is not None and is_pow4k(t0[3], Kt)):
+                # another closed form of the successor of the cleared entry, decided by evaluation
+                if cleared and t0[0] == 'bin':
+                    verdict, cex = successor_verdict(t, cleared[0][0][1][2], cleared[0][0][2], Kt)
+                    if verdict is True:
+                        found += 1
+                        run.ok('R-SHIFT', f, 'removed-arc-target', f.nodes[d.node].lineno,
+                               'equal to (former*4 + column) mod 4^k for the cleared entry on every (former, column) for k <= 4',
+                               extracted=show(t)[:200])
+                    elif verdict is False:
+                        found += 1
+                        run.refute('R-SHIFT', f, 'removed-arc-target', f.nodes[d.node].lineno,
+                                   'the removed arc target %s is %s for former %d, column %d, k = %d; the successor is %d'
+                                   % (show(t)[:100], cex[3], cex[0], cex[1], cex[2], (cex[0] * 4 + cex[1]) % 4 ** cex[2]),
+                                   extracted=show(t)[:200], inputs='former %d, column %d, k = %d' % cex[:3])
                 continue
             found += 1
             check_latter(ctx, f, t, Kt, f.nodes[d.node].lineno)
